@@ -472,7 +472,7 @@ func isIKConflict(err error) bool {
 
 // ------------------------------------------------------- C14 / C15 / C16 / C09 concurrent
 
-const ruleConc = "a funded ledger, then 2-4 concurrent writers under a drawn statement-level interleaving: creates sharing a reference, reverts of one transaction, and independent creates on disjoint accounts; per property: at most one transaction per reference and the losers get the reference-conflict error (C14); exactly one revert succeeds and the others get already-reverted, the original and its single revert cancel out (C15); transaction and log ids are unique and, in database commit order, never decrease (C16); with HASH_LOGS=SYNC every stored hash equals the chain hash of its predecessor in id order, recomputed by the stand-in's reference and by the real Log.ComputeHash, so no two logs chain from the same predecessor (C09); non-trivial = >= 1 context switch inside an open transaction; distinct = by requests + schedule"
+const ruleConc = "a funded ledger, then 2-4 concurrent writers under a drawn statement-level interleaving: creates sharing a reference, reverts of one transaction, and independent creates on disjoint accounts; per property: at most one transaction per reference and the losers get the reference-conflict error (C14); exactly one revert succeeds and the others get already-reverted, the original and its single revert cancel out (C15); transaction and log ids are unique and, in database commit order, never decrease (C16); with HASH_LOGS=SYNC every stored hash equals the chain hash of its predecessor in id order, recomputed by the stand-in's reference and by the real Log.ComputeHash, so no two logs chain from the same predecessor (C09); the journal grows by exactly one log per successful write and, replayed by id into a fresh reference model, equals every read of the ledger (C08); non-trivial = >= 1 context switch inside an open transaction; distinct = by requests + schedule"
 
 func runConcurrentMix(t *testing.T, id string, fs func(*rapid.T) features.FeatureSet, mix func(rt *rapid.T, w *World, l *LState) []concWriter, oracle func(w *World, l *LState, ws []concWriter, outs []concOutcome, s *Sched)) {
 	st := stats.New(id, "exploration", ruleConc, assumePgsim, assumeSched)
@@ -519,7 +519,7 @@ func runConcurrentMix(t *testing.T, id string, fs func(*rapid.T) features.Featur
 }
 
 // freshAllowed lists the concurrent checks whose writer mix does not need a pre-existing transaction.
-var freshAllowed = map[string]bool{"C14": true, "C16": true, "C09": true}
+var freshAllowed = map[string]bool{"C14": true, "C16": true, "C09": true, "C08": true}
 
 func genMix(refs bool, reverts bool) func(rt *rapid.T, w *World, l *LState) []concWriter {
 	return func(rt *rapid.T, w *World, l *LState) []concWriter {
@@ -714,6 +714,54 @@ func TestC16Concurrent(t *testing.T) {
 			}
 			lastTx, lastLog = *o.Tx.ID, *o.Log.ID
 		}
+	})
+}
+
+// TestC08Concurrent: under concurrency too, every write that succeeds appends exactly one log, the others none, and
+// the journal alone (replayed by id) determines what the ledger then answers.
+func TestC08Concurrent(t *testing.T) {
+	runConcurrentMix(t, "C08", GenFeatures, genMix(true, true), func(w *World, l *LState, ws []concWriter, outs []concOutcome, s *Sched) {
+		sched := strings.Join(s.Trace, "\n  ")
+		before := len(l.M.Logs)
+		var rows int
+		ids := map[string]bool{}
+		for _, r := range w.Env.Sim.Rows(l.Bucket, "logs") {
+			if r["ledger"].S == l.Name {
+				rows++
+				ids[r["id"].N.String()] = true
+			}
+		}
+		succeeded := 0
+		for i, o := range outs {
+			if o.Err != nil || o.Hit {
+				continue
+			}
+			succeeded++
+			if o.Log == nil || o.Log.ID == nil || !ids[fmt.Sprint(*o.Log.ID)] {
+				w.V("C08", "writer %d succeeded but the log it was given is not in the journal\n%s\nschedule:\n  %s", i, describeOuts(ws, outs), sched)
+			}
+		}
+		if rows-before != succeeded {
+			w.V("C08", "%d writers succeeded but the journal grew by %d logs\n%s\nschedule:\n  %s", succeeded, rows-before, describeOuts(ws, outs), sched)
+		}
+		w.Reopen(l)
+		exported := w.exportLogs(l)
+		replayed, err := ReplayLogs(exported)
+		if err != nil {
+			w.V("C08", "the journal cannot be replayed after the concurrent writes: %v\n%s", err, describeOuts(ws, outs))
+			return
+		}
+		l.M = replayed
+		for _, lg := range exported {
+			l.M.Logs = append(l.M.Logs, logOf(*lg.ID, lg.Type.String(), nil))
+		}
+		l.Ops = append(l.Ops, "(concurrent writes)\n"+describeOuts(ws, outs)+"schedule:\n  "+sched)
+		w.Focus = nil // the journal and the state must agree on every read
+		w.CheckTransactions(l, nil, 15, 0)
+		w.CheckAccounts(l, nil, 15)
+		w.CheckVolumes(l, nil, nil, false, 0, 15)
+		w.CheckAggregated(l, nil, false, nil, nil)
+		w.Focus = map[string]bool{"C08": true}
 	})
 }
 
